@@ -75,12 +75,14 @@ func registerSched() {
 		RuleText: genRule + "Non-trivial: a case with a bind/nomination of a pod whose hard constraints exclude at least one node of the pool, or that carries inter-pod (anti-)affinity terms, or whose group/sub-group has a required topology level.",
 		Assume: []string{"terminating, same-cycle-evicted and merely nominated pods are don't-care for inter-pod terms (either reading accepted)", "only Ready/unschedulable node conditions are demanded",
 			"topology: labels are demanded for the required level and coarser levels only; already active pods pin the domain only if they lie in one domain"}})
-	run.Register(&SchedCheck{Id: "C06", Profile: "victims", Quick: 1000, Thorough: 8000,
+	run.Register(&SchedCheck{Id: "C06", Profile: "victims", Quick: 1000, Thorough: 8000, PodGroupLag: true,
 		Mutate: func(c *spec.Case, seed int64, idx int) { oracle.ResetC06() },
 		Gen: func(seed int64, idx int, tier string) *spec.Case {
 			if idx%3 == 1 { // a third of the cases: department-contention clusters with min-runtimes and workload controllers
 				// every other one of them with a freshly started elastic workload in protected queues (ElasticFocus)
-				return gen.ContentionWith(seed, idx, tier, gen.ContentionOpts{MinRuntime: true, EarlyRecreate: true, ElasticFocus: idx%2 == 0})
+				// and those that keep one scheduler cache (idx%4 == 3; half of them with a lagging PodGroup informer) with work
+				// that starts in cycle 1 and reclaimers that arrive afterwards (LateReclaimers)
+				return gen.ContentionWith(seed, idx, tier, gen.ContentionOpts{MinRuntime: true, EarlyRecreate: true, ElasticFocus: idx%2 == 0, LateReclaimers: idx%4 == 3})
 			}
 			return nil
 		},
